@@ -318,6 +318,24 @@ func ruleC14(c *Ctx, r *Report) {
 				}
 				kind, detail := classifyPathArg(call.Call.Args[idx], own, 0)
 				construct := fmt.Sprintf("%s:path-to(%s)[%s]", f.Name(), callee.Name(), kind)
+				// the value handed on is a member el.Value of a document this function iterates: the
+				// path that goes with it names that member - the caller's own, unextended path loses
+				// the member's name. (Which key an extended path ends with is not judged: the search
+				// walkers deliberately leave the clause keys of compound out of the path.)
+				for ai, a := range call.Call.Args {
+					if ai == idx {
+						continue
+					}
+					_, el, isMember := memberOfIteration(f, a)
+					if !isMember {
+						continue
+					}
+					_ = el
+					if kind == "own" && canon(call.Call.Args[idx]) == ssa.Value(own) {
+						kind, detail = "own-for-a-member", "the caller's own key path although the value handed on is the member under the current key"
+						construct = fmt.Sprintf("%s:path-to(%s)[%s]", f.Name(), callee.Name(), kind)
+					}
+				}
 				switch {
 				case kind == "own" || kind == "append":
 					r.OK("C14-R2", construct, c.InstrPos(i), "path argument is "+detail)
@@ -526,7 +544,25 @@ func pathSliceNotWrittenRule(c *Ctx, r *Report, p *Prov, rule, consequence strin
 		allInstrs(f, func(i ssa.Instruction) {
 			switch x := i.(type) {
 			case *ssa.Call:
-				if calleeKey(&x.Call) != "builtin append" {
+				// library functions that rearrange their slice argument in place (slices.Delete
+				// shifts the tail down and zeroes the freed slots; slices.Clip / a re-slice do not copy)
+				k := calleeKey(&x.Call)
+				for _, pfx := range []string{"slices.Delete", "slices.Insert", "slices.Replace", "slices.Reverse", "slices.Sort", "slices.Compact", "slices.Grow", "sort.Strings", "sort.Sort", "sort.Slice", "sort.Stable", "builtin copy", "builtin clear"} {
+					if strings.HasPrefix(k, pfx) && len(x.Call.Args) > 0 {
+						arg := x.Call.Args[0]
+						for depth := 0; depth < 4; depth++ {
+							if cl, ok := arg.(*ssa.Call); ok && strings.HasPrefix(calleeKey(&cl.Call), "slices.Clip") && len(cl.Call.Args) > 0 {
+								arg = cl.Call.Args[0]
+								continue
+							}
+							break
+						}
+						if prm := fromParam(arg, 0); prm != nil {
+							bad = append(bad, fmt.Sprintf("%s: %s rearranges parameter %s in place", c.InstrPos(i), shortKey(k), prm.Name()))
+						}
+					}
+				}
+				if k != "builtin append" {
 					return
 				}
 				if sl, ok := x.Call.Args[0].(*ssa.Slice); ok && sl.High != nil && sl.Max == nil {
